@@ -107,6 +107,10 @@ class SymParser:
         if prelude: v = dict(zip(self.w.fields('PasetoParser'), v[3]))['parser']
         g = dict(zip(self.w.fields('GenericParser'), v[3])); kq = String('k_frame')
         same_validators = len(g['claim_validators'][2]) == len(self.vkeys) and all(a[0].eq(b) for a, b in zip(g['claim_validators'][2], self.vkeys))
+        # fields the harness does not know (a changed tree): they must not be written by a parse either
+        from .coreprops import same_value
+        before = dict(zip(self.w.fields('GenericParser'), self.value()[3]))
+        self.changed_extra = [f for f in self.w.extra_fields.get('GenericParser', []) if not same_value(g[f], before[f])]
         return And(Select(g['claims'][1], kq) == Select(self.P, kq), Select(g['claims'][2], kq) == Select(self.V, kq), Select(g['claim_validators'][1], kq) == Select(self.VP, kq),
                    BoolVal(same_validators), as_str_field(g['footer']) == self.F, as_str_field(g['implicit_assertion']) == self.A), kq
 
